@@ -387,7 +387,10 @@ def replay_case(arg):
                 interp.close(vf, vi) and interp.close(float(sf), float(si)) and
                 interp.close(np.asarray(gf, dtype=float), np.asarray(gi, dtype=float), rtol=1e-9, atol=1e-9)))
             if not same:
-                fail('Denotation', 'integer_vector_scores_differently', dict(float=[vf, float(sf)], int=[vi, float(si)], x=xi.tolist()))
+                value_ok = (np.isfinite(vf) == np.isfinite(vi)) and (not np.isfinite(vf) or (interp.close(vf, vi) and
+                                                                                          interp.close(float(sf), float(si))))
+                fail('Denotation' if not value_ok else 'GradSlotOK', 'integer_vector_scores_differently' if not value_ok
+                     else 'integer_vector_gradient', dict(float=[vf, float(sf)], int=[vi, float(si)], x=xi.tolist()))
         except Exception as e:
             fail('Evaluable', type(e).__name__, dict(op='integer vector', error=repr(e)))
     # ---- outside the support: plain evaluation and evaluation with sensitivities agree on finiteness -----------
